@@ -372,12 +372,20 @@ def type_sidecar(row):
             if it[0] in ('utf8', 'optutf8'):
                 s += '@closure 1\n@ret r: DecodeError\n@ensures r == DecodeError::InvalidUtf8(%d)\n' % num
     s += '@fn %s::<%s as QueryableAVP>::get_length\n@safety C07;C06\n' % (mod, name)
-    s += '@fn %s::<%s as WritableAVP>::write\n@safety C06;C09\n' % (mod, name)
+    s += '@fn %s::<%s as WritableAVP>::write\n@safety ;C06,C09,C03\n' % (mod, name)
+    return s
+
+
+def avp_name_sidecar():
+    # C20: the rendering table must name the kind that this attribute number decodes to
+    s = '@fn message::avp::avp_name\n@ret r\n@safety C20\n@ensures\n'
+    for n in ASSIGNED:
+        s += '    [C20:avp_name.%d] attribute_type == %d ==> r@ == "%s"@,\n' % (n, n, AVP_NAMES[n])
     return s
 
 
 def generated_sidecar():
-    return '\n'.join(type_sidecar(r) for r in KINDS)
+    return '\n'.join(type_sidecar(r) for r in KINDS) + '\n' + avp_name_sidecar()
 
 
 if __name__ == '__main__':
